@@ -29,12 +29,19 @@ def site(r, nseeds, hosts):
         p = "/g%d" % k
         assets = []
         for i in range(r.randrange(2, 7)):
-            kind = "big" if (i == 0 and k % 2 == 0) else r.choice(["ok", "ok", "big", "404", "503", "reset", "redir", "json", "otherhost"])
+            kind = "big" if (i == 0 and k % 2 == 0) else "truncbig" if (i == 1 and k % 3 == 0) else "host429" if i == 2 else \
+                r.choice(["ok", "ok", "big", "404", "503", "reset", "redir", "json", "otherhost", "truncbig", "host429"])
             a = "%s/a%d.bin" % (p, i)
             if kind == "ok":
                 pages[a] = {"ctype": "image/png", "body": {"kind": "png", "size": r.choice([100, 30000]), "seed": i}}
             elif kind == "big":
                 pages[a] = {"ctype": "text/plain", "body": {"kind": "text", "size": 2600000, "seed": i}}     # spooled to a temp file
+            elif kind == "truncbig":
+                pages[a] = {"ctype": "text/plain", "body": {"kind": "text", "size": 3000000, "seed": i}, "truncateAt": 2500000}   # dies after the spool went to disk
+            elif kind == "host429":
+                # a host of its own that answers "too many requests": its bucket is penalised when the next host needs a slot
+                a = "http://127.0.%d.%d:{PORT}%s/h%d.png" % (1 + k % 200, 10 + i, p, i)
+                pages["%s/h%d.png" % (p, i)] = {"status": 429, "ctype": "text/plain", "body": {"kind": "text", "size": 10, "seed": i}}
             elif kind == "404":
                 pass
             elif kind == "503":
